@@ -93,6 +93,7 @@ typedef struct ys_scan_opts
   int fault_block;    /* YS_SCAN_BLOCKS: the data of this block (1-based) lies in a mapping of a file that
                          has been truncated, so reading it raises SIGBUS inside the library; 0 = none */
   int park_us;        /* YS_SCAN_BLOCKS: fetch_data sleeps this long before returning */
+  int resume_sleep_us; /* YS_SCAN_BLOCKS with a scanner: wait this long before resuming after NOT_READY */
   const char* scan_path; /* YS_SCAN_FILE: scan this existing path instead of `data` (e.g. a file that cannot be mapped) */
 } ys_scan_opts;
 
